@@ -72,6 +72,7 @@ func (c12) Probes() []string {
 }
 
 func (c12) Gen(r *R, tier string) any {
+	allowHugeOriginLists = false
 	observeUnknownAPI = true
 	p := &C12Plan{Perm: r.Uint64()}
 	n := r.Range(1, 3)
@@ -418,6 +419,7 @@ func (c12) Exec(plan any, c *Ctx) *Violation {
 			}
 		}()
 		for i, x := range mws {
+			pokeGetters(x.m)
 			order := permOf(p.Perm, uint64(stepNo*8+i), len(x.suite))
 			for _, j := range order {
 				got := serveWith(x.srv, x.suite[j], nil, &x.invoked)
